@@ -227,6 +227,39 @@ func checkC12(c *Ctx, r *Report) {
 		r.instance("R12.5", copyItems(tmp, r, "R19.3", "R12.5", "the parsed frame is do()'s result"))
 	}
 	r.floor("R12.5", 2)
+	// R12.7: the recogniser's verdict is only CRC-guarded for the bytes it is shown: wherever the
+	// clients consult it outside the read loop (in Do), it must be shown the whole received frame
+	for _, spec := range []struct {
+		name   string
+		serial bool
+	}{{"Client", false}, {"SerialClient", true}} {
+		ci := analyseClient(c, spec.name, spec.serial)
+		r.instance("R12.7", 1)
+		if ci.problem != "" {
+			r.undecided("R12.7", fnID(ci.Do), ci.problem, c.pos(ci.Do.Pos()))
+			continue
+		}
+		var doRes AV
+		for _, cr := range ci.an.calls {
+			if cr.frame == ci.top && cr.callee == ci.do {
+				if t, ok := cr.res.(ATuple); ok && len(t) == 2 {
+					doRes = t[0]
+				}
+			}
+		}
+		extra := ci.dynCalls(ci.top, ci.asErr)
+		okAll := true
+		for _, cr := range extra {
+			if doRes == nil || len(cr.args) != 1 || describeAV(cr.args[0]) != describeAV(doRes) {
+				okAll = false
+				r.fail("R12.7", fnID(ci.Do), "Do consults the exception recogniser on something other than the whole received frame (a prefix of a corrupted reply can pass the recogniser's own CRC test)", posOfCall(c, cr), describeAV(cr.args[0]), "recogniser-on-part")
+			}
+		}
+		if okAll {
+			r.ok("R12.7", fnID(ci.Do), fmt.Sprintf("outside the read loop the recogniser is consulted %d time(s), always on the whole received frame", len(extra)), c.pos(ci.Do.Pos()), true)
+		}
+	}
+	r.floor("R12.7", 2)
 	// R12.6: the guard is only as good as the checksum: its constants (initial value, reflected
 	// polynomial or the lookup table derived from it) are the specification's (C03 R3.4)
 	{
